@@ -4,6 +4,7 @@ mod common;
 mod constants;
 mod exact;
 mod gen;
+mod gen1d;
 mod oracle;
 mod splinegen;
 
@@ -11,7 +12,7 @@ use common::*;
 use std::process::exit;
 
 fn registry() -> Vec<Box<dyn Check>> {
-    vec![Box::new(checks::c01::C01), Box::new(checks::c02::C02), Box::new(checks::c03::C03)]
+    vec![Box::new(checks::c01::C01), Box::new(checks::c02::C02), Box::new(checks::c03::C03), Box::new(checks::c04::C04), Box::new(checks::c05::C05), Box::new(checks::c06::C06), Box::new(checks::c07::C07)]
 }
 
 fn find(id: &str) -> Box<dyn Check> {
